@@ -16,6 +16,7 @@ use identity_core::common::KeyComparable;
 use identity_core::common::Url;
 
 use crate::did::is_char_method_id;
+use crate::did::parse_base_did_url;
 use crate::did::CoreDID;
 use crate::did::DID;
 use crate::Error;
@@ -279,7 +280,7 @@ impl DIDUrl {
 
   /// Parse a [`DIDUrl`] from a string.
   pub fn parse(input: impl AsRef<str>) -> Result<Self, Error> {
-    let did_url: BaseDIDUrl = BaseDIDUrl::parse(input)?;
+    let did_url: BaseDIDUrl = parse_base_did_url(input.as_ref())?;
     Self::from_base_did_url(did_url)
   }
 
@@ -387,7 +388,7 @@ impl DIDUrl {
     }
 
     // Parse DID Url.
-    let base_did_url: BaseDIDUrl = BaseDIDUrl::parse(self.to_string())?.join(segment)?;
+    let base_did_url: BaseDIDUrl = parse_base_did_url(&self.to_string())?.join(segment)?;
     Self::from_base_did_url(base_did_url)
   }
 
